@@ -1,5 +1,6 @@
 """C03 — decided on the serial dependency engine; see deps_check.py (shared body) and DESIGN §7.  Plus one directed
 parallel scenario: a checksummed target that stamps early and is still running while a second dependent asks for it."""
+import os
 import deps_check
 from c_deps_common import *
 from common import *
@@ -86,6 +87,59 @@ def piecewise_stamp(viol):
         pr.destroy()
 
 
+def second_command_in_stamp_window(viol):
+    """Two top-level commands.  A rebuilds a checksummed target S on request (`redo S`; the result is byte-identical);
+    while S's script is still running after its redo-stamp, B (`redo-ifchange D`, D depends on S) walks over S, finds
+    nothing to do and leaves its own "checked" mark there.  S's unchanged checksum must survive that: D is not rebuilt —
+    not by A, not by B, not by a later redo-ifchange — and the next real change of S's content still rebuilds D once."""
+    import subprocess, time as _t
+    from proj import clean_env
+    pr = Project()
+    try:
+        pr.write("src", "one\n")
+        pr.write("S.do", 'redo-ifchange src\ncat src >"$3"\nredo-stamp <"$3"\n: >stamped\nn=0\nwhile [ -e hold ] && [ $n -lt 200 ]; do sleep 0.05; n=$((n+1)); done\n')
+        pr.write("D.do", 'redo-ifchange S\necho ran >>D.runs\ncat S >"$3"\n')
+        r0 = pr.run(["redo-ifchange", "D"], timeout=60)
+        pr.write("hold", "")
+        pr.rm("stamped")
+        a = subprocess.Popen(["redo", "S"], cwd=pr.root, env=clean_env(), stdin=subprocess.DEVNULL, stdout=subprocess.PIPE, stderr=subprocess.PIPE, start_new_session=True)
+        t0 = _t.time()
+        while not os.path.exists(pr.path("stamped")) and _t.time() - t0 < 20 and a.poll() is None:
+            _t.sleep(0.02)
+        rb = pr.run(["redo-ifchange", "D"], timeout=60)
+        pr.rm("hold")
+        try:
+            ea = a.communicate(timeout=60)[1].decode("utf-8", "replace")
+            rca = a.returncode
+        except subprocess.TimeoutExpired:
+            a.kill()
+            ea, rca = "timeout", -999
+        n1 = len((pr.read("D.runs") or b"").split())
+        r2 = pr.run(["redo-ifchange", "D"], timeout=60)
+        n2 = len((pr.read("D.runs") or b"").split())
+        r3 = pr.run(["redo", "S"], timeout=60)                    # once more, alone: still the same checksum
+        r4 = pr.run(["redo-ifchange", "D"], timeout=60)
+        n4 = len((pr.read("D.runs") or b"").split())
+        pr.write("src", "two\n")
+        r5 = pr.run(["redo-ifchange", "D"], timeout=60)
+        n5 = len((pr.read("D.runs") or b"").split())
+        problems = []
+        if any(r[0] != 0 for r in (r0, rb, r2, r3, r4, r5)) or rca != 0:
+            problems.append("exit statuses %r, A: %r" % ([r[0] for r in (r0, rb, r2, r3, r4, r5)], rca))
+        if n1 != 1 or n2 != 1:
+            problems.append("D.do ran %d time(s) by the end of the two commands and %d after the next redo-ifchange D although S's content never changed (expected 1: the first build)" % (n1, n2))
+        elif n4 != 1:
+            problems.append("after another `redo S` with identical content, redo-ifchange D ran D.do again: S's checksum was lost")
+        if not problems and (n5 != 2 or pr.read("D") != b"two\n"):
+            problems.append("after src really changed D.do ran %d times in all and D holds %r (expected 2, b'two\\n')" % (n5, pr.read("D")))
+        if problems:
+            p = write_replay("C03", "stamp-window", dict(kind="impl-monitor", problems=problems, stderr=dict(A=ea[-600:], B=rb[2][-600:]),
+                                                         scenario="S.do: redo-ifchange src; cat src >$3; redo-stamp <$3; wait while `hold` exists.  D.do: redo-ifchange S; cat S.  redo-ifchange D; A = redo S (held after its redo-stamp); B = redo-ifchange D meanwhile; release; redo-ifchange D; redo S; redo-ifchange D; edit src; redo-ifchange D"))
+            viol.append(Violation("C03", p, "a second command walks over a checksummed target between its redo-stamp and the end of its script: " + "; ".join(problems)))
+    finally:
+        pr.destroy()
+
+
 def run(ctx):
     cov = deps_check.run_property(ctx, "C03", FEATURES["C03"], NCASES["C03"], WANT["C03"], known_matcher=KNOWN.get("C03"))
     viol = ctx.setdefault("violations", [])
@@ -95,4 +149,7 @@ def run(ctx):
     if not viol and not ctx.get("replay"):
         piecewise_stamp(viol)
         cov["directed_scenarios"] = 2
+    if not viol and not ctx.get("replay"):
+        second_command_in_stamp_window(viol)
+        cov["directed_scenarios"] = 3
     return cov
